@@ -8,6 +8,7 @@ package mcp
 
 import (
 	"bufio"
+	"bytes"
 	"context"
 	"encoding/json"
 	"fmt"
@@ -329,14 +330,30 @@ func (t *stdioClientTransport) readLoop() {
 		}
 	}()
 
+	// Messages are newline-delimited (MCP stdio framing), so the stream is read line by line and each
+	// line decoded on its own: a json.Decoder over the whole stream keeps returning its first syntax
+	// error forever, which turned one non-JSON line (or a read error) into a busy loop that never
+	// processed another frame.
+	reader := bufio.NewReader(t.stdout)
 	for !t.closed.Load() {
+		line, readErr := reader.ReadBytes('\n')
+		if readErr != nil && len(bytes.TrimSpace(line)) == 0 {
+			// io.EOF, a closed pipe or any other read error is final.
+			if readErr != io.EOF && !t.closed.Load() {
+				t.logger.Errorf("Error reading message: %v", readErr)
+			}
+			break
+		}
+		line = bytes.TrimSpace(line)
+		if len(line) == 0 {
+			continue
+		}
 		var rawMessage json.RawMessage
-		if err := t.decoder.Decode(&rawMessage); err != nil {
-			// io.ErrUnexpectedEOF: the stream ended inside a message; like io.EOF it is final.
-			if err == io.EOF || err == io.ErrUnexpectedEOF || t.closed.Load() {
+		if err := json.Unmarshal(line, &rawMessage); err != nil {
+			t.logger.Errorf("Error reading message: %v", err)
+			if readErr != nil {
 				break
 			}
-			t.logger.Errorf("Error reading message: %v", err)
 			continue
 		}
 
